@@ -9,7 +9,7 @@ CONSTANTS
   OpTypes = {"query"}
   FieldAlpha <- AlphaAbstractF
   Aliases = {""}
-  Conds = {"", "A"}
+  Conds = {"", "A", "B"}
   DirOpts <- NoDirs
   ArgOpts <- ArgOptsNone
   VarTypes <- VarTypesStd
